@@ -274,6 +274,10 @@ func runC12(c *Ctx) {
 	c.rule(P, "member", "auxiliary-group membership is true only when an element of the request credential's AuxGIDs equals the object's group", 1)
 	c.rule(P, "encode", "ACCESS3resok access word is the accumulator; dir = ModeDir of the returned attributes", 2)
 
+	// "LOOKUP and DELETE only on directories" is decided on the type the attributes report; the request path must
+	// not be able to make the backend record another type for the object (borrowed from C04)
+	runC04ChmodType(c, P)
+
 	ent, err := p.entrySet()
 	if err != nil {
 		c.undecided(P, "bits", "entries", "", err.Error())
